@@ -418,6 +418,8 @@ INT_CFGS = [(2, 1, 1, 2), (3, 2, 2, 3), (4, 1, 2, 1), (2, 2, 1, 4), (np.int64(2)
 
 
 def run_intcfg():
+    from .common import defaults_facts
+    defaults_facts(['extrapolation.Richardson.__init__'])
     """integer-typed step_ratio / step / order: the matrix (and hence the rule) is the one of the same numbers given as
     floats.  Executed on concrete data with the real numpy (dtype truncation is invisible in object arrays)."""
     ex = mods()['ex']
